@@ -512,6 +512,26 @@ func runC19(c *fw.Ctx) {
 			same("NewListOf", at.NewListOf(fx.outer, 2).Get(1))
 			same("NewListFrom", at.NewListFrom([]any{fx.outer}).Get(0))
 			same("NewObjectFrom", at.NewObjectFrom(map[string]any{"k": fx.outer}).Get("k"))
+			// ... and through the typed collections of containers (as constructor argument and as a value of Add / Set / SetTF)
+			if storedIsList {
+				tl := []at.List{fx.outer.(at.List)}
+				tm := map[string]at.List{"k": fx.outer.(at.List)}
+				same("NewListFrom([]List)", at.NewListFrom(tl).Get(0))
+				same("NewObjectFrom(map[string]List)", at.NewObjectFrom(tm).Get("k"))
+				same("Add([]List)", at.NewList().Add(tl).GetList(0).Get(0))
+				same("Set(map[string]List)", at.NewObject().Set("m", tm).GetObject("m").Get("k"))
+				same("SetTF([]List)", at.NewObject().SetTF(".a.b", tl).GetTF(".a.b#0"))
+				same("NewList([]any{[]List})", at.NewList([]any{tl}).GetTF("#0#0#0"))
+			} else {
+				tl := []at.Object{fx.outer.(at.Object)}
+				tm := map[string]at.Object{"k": fx.outer.(at.Object)}
+				same("NewListFrom([]Object)", at.NewListFrom(tl).Get(0))
+				same("NewObjectFrom(map[string]Object)", at.NewObjectFrom(tm).Get("k"))
+				same("Add([]Object)", at.NewList().Add(tl).GetList(0).Get(0))
+				same("Set(map[string]Object)", at.NewObject().Set("m", tm).GetObject("m").Get("k"))
+				same("SetTF(map[string]Object)", at.NewList().SetTF("#1", tm).GetTF("#1.k"))
+				same("NewObject(map[string]any{[]Object})", at.NewObject("x", map[string]any{"y": tl}).GetTF(".x.y#0"))
+			}
 			// tree-form writes that descend THROUGH the stored derived value reuse it (it is a container of the right
 			// kind): it must stay where it is, stay the identical outer value, and receive the write itself
 			if storedIsList {
